@@ -11,6 +11,8 @@
 import Golib.Layout.Agree
 import Golib.Packs.Hand
 import Golib.Packs.Container
+import Golib.Packs.Irregular
+import Golib.Layout.Prefix
 import Golib.Gen.PackLayouts
 
 namespace C03Gen
@@ -88,6 +90,42 @@ theorem agree_records_TransactionRec_v3 :
 open Packs in
 theorem agree_records_TransactionRec_v4 :
     agrees (recordsW (TransactionRec.w.subst "version" 4)) (recordsW TransactionRec.r) = true := by decide
+
+theorem agree_HitMapPack1 : agrees HitMapPack1.w HitMapPack1.r = true := by decide
+theorem agree_ServiceRec : agrees ServiceRec.w ServiceRec.r = true := by decide
+open Packs in
+theorem agree_records_ServiceRec : agrees (recordsW ServiceRec.w) (recordsW ServiceRec.r) = true := by decide
+
+/-! ### irregular packs: writer and reader layouts written by hand after the Go functions
+    (Golib/Packs/Irregular.lean; tied by the correspondence harness and the statement skeletons) -/
+
+open Packs.Irregular in
+theorem agree_CounterPack1 : agrees Packs.Irregular.CounterPack1.w Packs.Irregular.CounterPack1.r = true := by decide
+
+def smBaseReader : L := Packs.Irregular.SMBasePack.r CpuLinux.r MemoryLinux.r CpuWindow.r MemoryWindow.r
+/-- SMBasePack for each OS class the reader knows (Cpu/CpuCore/Memory of the matching layout) -/
+theorem agree_SMBasePack_linux : agrees (Packs.Irregular.SMBasePack.w 1 CpuLinux.w MemoryLinux.w) smBaseReader = true := by decide
+theorem agree_SMBasePack_window : agrees (Packs.Irregular.SMBasePack.w 2 CpuWindow.w MemoryWindow.w) smBaseReader = true := by decide
+theorem agree_SMBasePack_osx : agrees (Packs.Irregular.SMBasePack.w 3 CpuLinux.w MemoryLinux.w) smBaseReader = true := by decide
+theorem agree_SMBasePack_hpux : agrees (Packs.Irregular.SMBasePack.w 4 CpuLinux.w MemoryLinux.w) smBaseReader = true := by decide
+theorem agree_SMBasePack_aix : agrees (Packs.Irregular.SMBasePack.w 5 CpuLinux.w MemoryLinux.w) smBaseReader = true := by decide
+/-- known finding `SMBasePack.OS:unsupported-os`: for OS_SUNOS / OPENBSD / FREEBSD (6, 7, 8) the reader has no
+    case: what `Write` emits for Cpu / CpuCore / Memory is not consumed -/
+theorem finding_SMBasePack_unsupported_os :
+    agrees (Packs.Irregular.SMBasePack.w 6 CpuLinux.w MemoryLinux.w) smBaseReader = false ∧
+    agrees (Packs.Irregular.SMBasePack.w 7 CpuLinux.w MemoryLinux.w) smBaseReader = false ∧
+    agrees (Packs.Irregular.SMBasePack.w 8 CpuLinux.w MemoryLinux.w) smBaseReader = false := by decide
+
+theorem agree_StatGeneralPack : agrees Packs.Irregular.StatGeneralPack.l Packs.Irregular.StatGeneralPack.l = true := by decide
+theorem agree_StatGeneralPack1 : agrees Packs.Irregular.StatGeneralPack1.l Packs.Irregular.StatGeneralPack1.l = true := by decide
+theorem agree_StatGeneralTable : agrees Packs.Irregular.StatGeneralTable.l Packs.Irregular.StatGeneralTable.l = true := by decide
+
+/-! ### no transcribed reader asks whether the input has ended: `Layout.read_prefix_fails` applies to each -/
+theorem generated_readers_tailFree : all.all (fun t => t.2.2.tailFree) = true := by decide
+theorem CounterPack1_reader_tailFree : Packs.Irregular.CounterPack1.r.tailFree = true := by decide
+/-- SMBasePack's `Available() == 0` test (C04's documented older-version tail) sits inside the blob the
+    whole pack travels in: at the pack level a strict prefix still fails (the blob is cut short) -/
+theorem SMBasePack_reader_tailFree : smBaseReader.tailFree = true := by decide
 
 /-! ### packs with a hand-written writer layout: the transcribed reader must agree with it -/
 theorem agree_TagCountPack : agrees Packs.Hand.TagCountPack.w TagCountPack.r = true := by decide
